@@ -305,10 +305,19 @@ func scenC03(r *Run) {
 		}
 	} else {
 		nu := 2 + t.Draw(7)
+		samePath := t.Chance(1, 3) // several URLs differ only in their query (pages of one collection)
 		for i := 0; i < nu; i++ {
 			q := ""
 			if t.Chance(1, 4) {
 				q = fmt.Sprintf("?page=%d&x=a%%20b", i)
+			}
+			if samePath && i > 0 && t.Chance(2, 3) {
+				base := urls[t.Draw(len(urls))]
+				if j := strings.IndexByte(base, '?'); j >= 0 {
+					base = base[:j]
+				}
+				urls = append(urls, fmt.Sprintf("%s?page=%d", base, i))
+				continue
 			}
 			urls = append(urls, fmt.Sprintf("https://h%d.example/n/%d%s", 1+t.Draw(nh), i, q))
 		}
